@@ -80,7 +80,7 @@ def job(j):
             unsat_said = "no solution exists" in text
             if sol:
                 record("debug-run-returned-solution-for-infeasible-problem", repr(hs.timing_of_solution(program, sol)))
-            elif unsat_said:
+            elif unsat_said or named is not None:
                 if named is None:
                     record("no-diagnosis-printed", text[-200:])
                 else:
